@@ -75,6 +75,9 @@ def piece_width(p):
 
 def run(ctx):
     F = ctx.F()
+    global T2
+    from . import tagtables as _TTk
+    T2 = _TTk.conv_key(F, "t2")
     kinds = {}
     for crate, tab, hdrf in (("multiboot2", S.MBI_TAGS, S.MBI_TAG_HEADER), ("multiboot2_header", S.HEADER_TAGS, S.HEADER_TAG_HEADER)):
         for kind, row in tab.items():
